@@ -1404,7 +1404,9 @@ impl<'a> XGen<'a> {
                     let n1 = 1 + self.rng.below(3);
                     self.first_line_as_ok = true;
                     let mut inner_funs: Vec<(u32, usize)> = funs.iter().copied().filter(|(g, _)| *g != f).collect();
-                    let mut body = self.lines(&mut i1, &mut inner_funs, &[], fn_depth - 1, 1, n1);
+                    // the parameter a recursive closure counts down on is never assigned in its body
+                    let fr: Vec<u32> = if recursive { vec![ps[0]] } else { vec![] };
+                    let mut body = self.lines(&mut i1, &mut inner_funs, &fr, fn_depth - 1, 1, n1);
                     if recursive {
                         // … if p < 1 then base else f(p - 1)
                         let base = self.ex(&mut i1, &inner_funs, &[], 1, true);
@@ -1608,7 +1610,11 @@ fn capx_check(rt: &mut Runtime, case: &CapxCase, model: &str) -> Result<(), (Str
     // (D2) closure vs parameters
     let free_outer: Vec<u32> = m_free.last().map(|f| f.iter().copied().filter(|x| case.outer.iter().any(|(y, _)| y == x)).collect()).unwrap_or_default();
     let b = case.koto(Some(&free_outer));
+    let t0 = std::time::Instant::now();
     let (ra, ta) = rt.run(&a);
+    if std::env::var("C02_SLOW").is_ok() && t0.elapsed().as_millis() > 500 {
+        eprintln!("SLOW {} ms -> {}\n{}", t0.elapsed().as_millis(), ra, a);
+    }
     let (rb, tb) = rt.run(&b);
     if ra != rb || ta != tb {
         return Err((
